@@ -13,8 +13,8 @@
 (*  (G) a GENERATOR machine whose behaviours are the inputs of the          *)
 (*      quantifier: all token pairs/triples x separators, all string bodies *)
 (*      up to a length, random long sequences and programs (-simulate).     *)
-(* TLC checks PosTruth, Progress, LongestOp, Layout and AlgEqualsRef and    *)
-(* prints one REPLAY line per input carrying the token list RefLex predicts.*)
+(* TLC checks PosTruth, Progress, Monotone, LongestOp, Layout, AlgEqualsRef  *)
+(* and prints one REPLAY line per input with the token list RefLex predicts. *)
 (*                                                                          *)
 (* Characters are ABSTRACT: a one-character string stands for that ASCII    *)
 (* character, a longer name for a special one: SP TAB LF CR FF (white       *)
@@ -482,9 +482,13 @@ PosTruth ==
   /\ \A k \in (IF Stepwise THEN {Len(m.out)} \ {0} ELSE DOMAIN m.out) : TokPosOk(m.out[k])
   /\ m.st = "lex" => TokPosOk([idx |-> m.idx, off |-> m.off, ln |-> m.ln, col |-> m.col])
 
-(* every call of `token` consumes input *)
-Progress == [][m.st = "lex" /\ m'.st = "lex" => m'.idx > m.idx /\ m'.off > m.off]_vars
-ProgressInv ==
+(* every call of `token` consumes input: from every state of the loop the   *)
+(* next turn moves the cursor forward (a state predicate about the enabled  *)
+(* step - a turn that consumed nothing would be a stuttering step, which no *)
+(* action property can see); and the offsets of the tokens strictly increase*)
+Progress == m.st = "lex" =>
+  LET nx == StepF(text, m, Deviations) IN nx.st = "lex" => nx.idx > m.idx /\ nx.off > m.off
+Monotone ==
   /\ \A k \in (IF Stepwise THEN {Len(m.out)} \ {0, 1} ELSE 2..Len(m.out)) : m.out[k].off > m.out[k - 1].off
   /\ m.st = "lex" /\ m.out # << >> => m.off > Last(m.out).off
 
